@@ -392,9 +392,88 @@ func c03Large(s *Shard) {
 	}
 }
 
+// c03Wide: many criteria (the other dimension of size): 7 and 8 for Choquet (127 / 255 capacities, additive and
+// non-additive monotone), 13 and 21 for weighted sum and OWA (mixed gain/cost for the weighted sum), value vectors with
+// ties, rotations and a strictly ordered one; alone and after an omission / a fatigue.
+func c03Wide(s *Shard) {
+	for _, method := range utilMethods {
+		sizes := []int{13, 21}
+		if method == "choquetIntegral" {
+			sizes = []int{7, 8}
+		}
+		for _, n := range sizes {
+			for shape := 0; shape < 3; shape++ {
+				for _, prefix := range []string{"none", "omission", "fatigue"} {
+					if !s.Take() {
+						continue
+					}
+					cids := make([]string, n)
+					for i := range cids {
+						cids[i] = fmt.Sprintf("k%02d", (i*5)%n) // declared in a scrambled order
+					}
+					var crits L
+					for i, id := range cids {
+						t := "gain"
+						if method == "weightedSum" && i%3 == 1 {
+							t = "cost"
+						}
+						crits = append(crits, crit(id, t))
+					}
+					var ka L
+					var chose []string
+					for a := 0; a < 4; a++ {
+						cv := map[string]float64{}
+						for i, id := range cids {
+							switch shape {
+							case 0:
+								cv[id] = float64((i*(a+2))%n) / 4 // a permutation-like spread, different per alternative
+							case 1:
+								cv[id] = float64((i + a) % 3) // many ties
+							default:
+								cv[id] = float64(i+1) * (1 + float64(a)/8) // strictly ordered
+							}
+						}
+						id := fmt.Sprintf("w%d", a)
+						ka = append(ka, alt(id, cv))
+						chose = append(chose, id)
+					}
+					w := M{}
+					if method == "choquetIntegral" {
+						for _, sub := range subsetsOf(cids) {
+							f := float64(len(sub)) / float64(n)
+							if shape == 1 {
+								f = f * f // non-additive, monotone
+							}
+							w[strings.Join(sub, ",")] = f
+						}
+					} else {
+						for i, id := range cids {
+							w[id] = float64((i*7)%n+1) / 8
+						}
+					}
+					req := M{"preferenceFunction": method, "knownAlternatives": ka, "choseToMake": strs(chose), "criteria": crits, "methodParameters": M{"weights": w}, "biasApplyRandomSeed": 1}
+					switch prefix {
+					case "omission":
+						req["biases"] = L{bias("criteriaOmission", M{"ratio": 0.34})}
+					case "fatigue":
+						req["biases"] = L{bias("fatigue", M{"function": "const", "params": M{"value": 0.25}, "randomSeed": 2})}
+					}
+					c := &Case{Prop: "C03", Kind: "request", Req: req}
+					s.Evals++
+					s.Begin(c)
+					s.Report(c03Check(c))
+					s.Count("requests/"+method+"/wide", 1)
+					s.Outcome(true, method, "wide", n, shape, prefix)
+				}
+			}
+		}
+	}
+}
+
 func c03Run(s *Shard) {
 	cur = s
 	c03Large(s)
+	c03Wide(s)
 	for _, method := range utilMethods {
 		for n := 1; n <= 3; n++ {
 			for _, prefix := range c03Prefixes {
